@@ -276,6 +276,24 @@ theorem pager_row_keeps_characters (w : Nat) (hw : 1 ≤ w) (cs : List Ch) (hpos
   have := (go_spec w l (List.replicate w none) 0 (Int.le_refl 0) hsub (by simp)).2.2 k c hk (by omega)
   simpa [drawRow] using this
 
+/-- **C19 × C11 — `SetCell` outside the window.**  The pager draws a line by `win.SetCell(col, row, …)`
+    for every character, the scrollbar by `win.SetCell(0, barTop+i, …)`; the models keep only the
+    cells with `0 ≤ col < width`, `0 ≤ row < height`.  By C11's model of `Window.SetCell`
+    (`Model/Window.lean`) this is exact: a call outside that range leaves the screen unchanged. -/
+theorem setcell_outside_ignored (win : Model.Window.Win) (scr : Model.Window.Screen) (col row : Int)
+    (c : Model.Window.Cell) (h : ¬ (0 ≤ col ∧ col < win.width ∧ 0 ≤ row ∧ row < win.height)) :
+    win.setCell scr col row c = scr := by
+  have hg : win.guard col row = false := by
+    unfold Model.Window.Win.guard
+    split
+    · rfl
+    · split
+      · rfl
+      · omega
+  cases win with
+  | root c0 r0 w hh => simp only [Model.Window.Win.setCell, Model.Window.Win.put, hg]; rfl
+  | child c0 r0 w hh par => simp only [Model.Window.Win.setCell, Model.Window.Win.put, hg]; rfl
+
 /-- Non-vacuity: a wide character at the right edge of a 3-column window: "ab" + wide → the wide one
     starts in column 2. -/
 example : drawRow 3 [⟨[97], 1⟩, ⟨[98], 1⟩, ⟨[0xe4], 2⟩] = [some ⟨[97], 1⟩, some ⟨[98], 1⟩, some ⟨[0xe4], 2⟩] := by decide
